@@ -236,15 +236,16 @@ def ecdsa_verify(alg, cert_der, data, raw_sig):
 def cert_bundle_eids(cert_der):
     ''' Texts of the id-on-bundleEID otherName SANs of a certificate (minimal DER reading of the IA5String). '''
     from cryptography import x509
-    cert = x509.load_der_x509_certificate(bytes(cert_der))
     out = []
     try:
+        cert = x509.load_der_x509_certificate(bytes(cert_der))
         ext = cert.extensions.get_extension_for_oid(x509.oid.ExtensionOID.SUBJECT_ALTERNATIVE_NAME)
     except x509.ExtensionNotFound:
         return out
-    except (x509.DuplicateExtension, x509.UnsupportedGeneralNameType, ValueError) as err:
-        # a certificate whose extensions do not parse (a flipped bit inside the x5chain) names nobody
-        raise CoseError('certificate extensions do not parse: %s' % err)
+    except Exception as err:
+        # a certificate that does not parse (a flipped bit inside the x5chain: bad version, duplicate extension, ...)
+        # names nobody
+        raise CoseError('certificate does not parse: %s: %s' % (type(err).__name__, err))
     for name in ext.value.get_values_for_type(x509.OtherName):
         if name.type_id.dotted_string == '1.3.6.1.5.5.7.8.11' and len(name.value) >= 2 and name.value[0] == 0x16:
             length = name.value[1]
